@@ -12,7 +12,7 @@ impl_kiter!([T: konst::iter::Step] kr::RangeIterRev<T>, T);
 impl_kiter!([T: konst::iter::Step] kr::RangeInclusiveIter<T>, T);
 impl_kiter!([T: konst::iter::Step] kr::RangeInclusiveIterRev<T>, T);
 
-const RULE: &str = "cases = (type, start, end, a..b | a..=b | a.. , history pattern of front/back steps run 2 steps past exhaustion or to a step cap); oracle = core::ops::{Range,RangeInclusive,RangeFrom} iterators stepped with next/next_back, through iter::into_iter! (by value and by reference), its .rev() (roles swapped), .rev().rev(), and iter::for_each! with and without rev(), and for_range! (integer types, a..b, with break / continue in the body); a.. is never asked to yield MAX (std and konst both overflow-panic there in debug builds); non-trivial = range touches MIN/MAX/the surrogate gap and the history uses both ends, or the range is inverted/empty; distinct by the whole tuple";
+const RULE: &str = "cases = (type, start, end, a..b | a..=b | a.. , history pattern of front/back steps run 2 steps past exhaustion or to a step cap); oracle = core::ops::{Range,RangeInclusive,RangeFrom} iterators stepped with next/next_back, through iter::into_iter! (by value and by reference), its .rev() (roles swapped), .rev().rev(), and iter::for_each! with and without rev(), and for_range! (integer types, a..b, with break / continue in the body); a.. is never asked to step past MAX in builds with overflow checks (std and konst both panic there), and is stepped 3 items past MAX in the release build (both wrap); non-trivial = range touches MIN/MAX/the surrogate gap and the history uses both ends, or the range is inverted/empty; distinct by the whole tuple";
 
 #[derive(Serialize, Deserialize, Debug, Clone, Copy, Hash, PartialEq, Eq)]
 enum Ty {
@@ -69,6 +69,8 @@ trait Num: konst::iter::Step + Copy + PartialEq + PartialOrd + std::fmt::Debug +
     fn touches_edge(a: Self, b: Self) -> bool;
     /// how many values x satisfy a <= x < MAX (capped), for `a..`
     fn room_below_max(a: Self) -> u128;
+    /// primitive integers: `a..` follows the overflow-check setting of the build (panic with checks, wrap without)
+    const IS_INT: bool = true;
     /// `konst::for_range!{x in a..b => ..}` capped at `cap` items, visiting order; with `skip_odd` every second
     /// iteration leaves through `continue` before the push (None: the macro does not accept this type)
     fn for_range(_a: Self, _b: Self, _cap: u32, _skip_odd: bool) -> Option<Vec<Self>> {
@@ -137,6 +139,7 @@ impl Num for u128 {
     }
 }
 impl Num for char {
+    const IS_INT: bool = false;
     fn bound(b: Bound) -> char {
         let n: i64 = match b.anchor {
             0 => b.off.rem_euclid(0x110000),
@@ -271,6 +274,27 @@ where
                 let mut got: Vec<T> = Vec::new();
                 for_each! {x in &r, take(m) => got.push(x); }
                 ensure!(got == want, "for_each!{{x in &({:?}..), take({m})}}: konst {:?} std {:?}", a, got, want);
+            }
+            // builds without overflow checks (release): std's RangeFrom over a primitive integer wraps at MAX
+            // (documented: "respects the overflow checks profile"), and so must konst's
+            if T::IS_INT && !cfg!(debug_assertions) && room < cap as u128 {
+                let m = room as usize + 3;
+                let want: Vec<T> = (a..).take(m).collect();
+                let mut k = into_iter!(a..);
+                let mut got = Vec::new();
+                for _ in 0..m {
+                    match k.copy().next() {
+                        Some((x, nx)) => {
+                            got.push(x);
+                            k = nx;
+                        }
+                        None => break,
+                    }
+                }
+                ensure!(got == want, "into_iter!({:?}..) stepped past MAX without overflow checks: konst {:?} std {:?}", a, got, want);
+                let mut got: Vec<T> = Vec::new();
+                for_each! {x in a.., take(m) => got.push(x); }
+                ensure!(got == want, "for_each!{{x in {:?}.., take({m})}} past MAX without overflow checks: konst {:?} std {:?}", a, got, want);
             }
             // take(room): std yields a..MAX without overflow; see known finding `take-pulls-one-extra-item`
             if (room as u128) <= cap as u128 {
